@@ -45,6 +45,26 @@ Proof. intros H. apply Rle_antisym.
     destruct (perm_surj (S K') sigma j H) as [k [Hk Es]]. lia. rewrite <- Es.
     apply (bmax_ge K' (fun k => f (sigma k)) k). lia. Qed.
 
+(* nor does the maximum over the ACTIVE classes (source_activity_mask relabelled with the classes) *)
+Theorem amax_relabel K' sigma (l : nat -> R) (b : nat -> bool) : is_perm (S K') sigma ->
+  amax RO K' (fun k => l (sigma k)) (fun k => b (sigma k)) = amax RO K' l b.
+Proof. intros H. unfold amax.
+  destruct (amax_opt RO (fun k => l (sigma k)) (fun k => b (sigma k)) K') as [v'|] eqn:E';
+  destruct (amax_opt RO l b K') as [v|] eqn:E.
+  - destruct (amax_opt_some _ _ K' v' E') as [Hge' [j' [Hj' [Bj' Ej']]]].
+    destruct (amax_opt_some _ _ K' v E) as [Hge [j [Hj [Bj Ej]]]].
+    apply Rle_antisym.
+    + rewrite <- Ej'. apply Hge; auto. pose proof (perm_range (S K') sigma j' H). lia.
+    + rewrite <- Ej. destruct (perm_surj (S K') sigma j H) as [k [Hk Es]]. lia. rewrite <- Es.
+      apply Hge'. lia. rewrite Es. exact Bj.
+  - destruct (amax_opt_some _ _ K' v' E') as [_ [j' [Hj' [Bj' _]]]].
+    pose proof (perm_range (S K') sigma j' H ltac:(lia)) as Hr.
+    pose proof (amax_opt_none l b K' E (sigma j') ltac:(lia)). congruence.
+  - destruct (amax_opt_some _ _ K' v E) as [_ [j [Hj [Bj _]]]].
+    destruct (perm_surj (S K') sigma j H) as [k [Hk Es]]. lia.
+    pose proof (amax_opt_none _ _ K' E' k ltac:(lia)) as Hn. cbv beta in Hn. rewrite Es in Hn. congruence.
+  - reflexivity. Qed.
+
 (* ------------------------------------------------------------------ the posterior column *)
 Section PosteriorPerm.
 Variables (K' : nat) (tiny eps : R) (w l : nat -> R) (b : nat -> bool) (sigma : nat -> nat).
@@ -52,7 +72,8 @@ Hypothesis Hs : is_perm (S K') sigma.
 Let w' := fun k => w (sigma k). Let l' := fun k => l (sigma k). Let b' := fun k => b (sigma k).
 
 Lemma unnorm_perm k : unnorm RO K' w' l' b' k = unnorm RO K' w l b (sigma k).
-Proof. unfold unnorm, shifted, w', l', b'. rewrite (bmax_relabel K' sigma l Hs). reflexivity. Qed.
+Proof. unfold unnorm, shifted. rewrite !bmax_lmask. unfold w', l', b'. rewrite (amax_relabel K' sigma l b Hs).
+  unfold lmask. rewrite (amax_relabel K' sigma l b Hs). reflexivity. Qed.
 Lemma den_perm : den RO K' tiny w' l' b' = den RO K' tiny w l b.
 Proof. unfold den. f_equal. rewrite !bsum_RO.
   rewrite (rsum_ext (S K') _ (fun k => unnorm RO K' w l b (sigma k))) by (intros; apply unnorm_perm).
